@@ -566,7 +566,8 @@ def _failures(tname, v, tail, memo, path='$'):
     ctor = v.get('_') if isinstance(v, dict) else None
     where = f'{tname}/{ctor}' if _multi(tname) else tname
     pre = f'{tname}/{ctor}.' if _multi(tname) else f'{tname}/'
-    cs = lib_from_rcell(cell).begin_parse()
+    lc = lib_from_rcell(cell)
+    cs = lc.begin_parse()
     ok, obj = call(_lib_class(tname).deserialize, cs)
     own = []                                          # failures attributed to this level unless a child explains them
     diff_fails = []
@@ -644,6 +645,16 @@ def _failures(tname, v, tail, memo, path='$'):
                 tail_fail = Fail(f'{where}/tail-differs', det)
     if tail_fail is not None:
         own = children_fail() or [tail_fail]
+    if not diff_fails and not own and path == '$':
+        # a second parse of the SAME cell object: same result, and parsing left the cell itself untouched (no parser state carried
+        # between calls, no parser that eats the cells it walks)
+        okb, objb = call(_lib_class(tname).deserialize, lc.begin_parse())
+        if not okb:
+            own.append(Fail(f'{where}/second-parse-of-the-same-cell/raises/{exc_sig(objb)}', repr(objb)))
+        elif R.diff(to_value(objb, t, exp), got) is not None:
+            own.append(Fail(f'{where}/second-parse-of-the-same-cell/differs', f'{tname}: at {R.diff(to_value(objb, t, exp), got)}'))
+        elif R.rcell_of(lc).repr_hash() != cell.repr_hash() or lc.bits.to01() != cell.bits:
+            own.append(Fail(f'{where}/parsing-changed-the-cell', tname))
     out = diff_fails + [f for f in own if f.signature not in {x.signature for x in diff_fails}]
     memo[path] = out
     return out
